@@ -552,7 +552,21 @@ func (tt *TermTable) FArith(cfg FloatCfg, op string, a, b *Term) (*Term, error) 
 		}
 		return tt.mk(op, SReal, 0, a, b), nil
 	}
-	// FP domain
+	// FP domain: sound IEEE identities first (round-to-nearest-even)
+	if op == "-" && a == b {
+		// x - x = +0 for finite x, NaN for NaN and infinities
+		bad := tt.Or(tt.FIsNaN(cfg, a), tt.FIsInf(cfg, a, 0))
+		return tt.Ite(bad, tt.Float(math.NaN(), SFP), tt.Float(0, SFP)), nil
+	}
+	if (op == "-" || op == "+") && b.IsConst() && b.f == 0 && math.Signbit(b.f) == (op == "+") {
+		return a, nil // x - (+0) = x, x + (-0) = x
+	}
+	if (op == "*" || op == "/") && b.IsConst() && b.f == 1 {
+		return a, nil
+	}
+	if op == "*" && a.IsConst() && a.f == 1 {
+		return b, nil
+	}
 	if cfg.Exact {
 		rm := tt.mk("RNE", SBool, 0) // printed as RNE; sort is irrelevant
 		name := map[string]string{"+": "fp.add", "-": "fp.sub", "*": "fp.mul", "/": "fp.div"}[op]
@@ -646,6 +660,9 @@ func (tt *TermTable) FNeg(cfg FloatCfg, a *Term) *Term {
 		}
 		return tt.mk("-", SReal, 0, a)
 	}
+	if a.op == "fp.neg" {
+		return a.args[0]
+	}
 	return tt.mk("fp.neg", SFP, 0, a)
 }
 
@@ -655,6 +672,16 @@ func (tt *TermTable) FAbs(cfg FloatCfg, a *Term) *Term {
 	}
 	if cfg.Dom == SReal {
 		return tt.Ite(tt.mk("<", SBool, 0, a, tt.Float(0, SReal)), tt.FNeg(cfg, a), a)
+	}
+	if a.op == "fp.abs" {
+		return a
+	}
+	if a.op == "fp.neg" {
+		return tt.FAbs(cfg, a.args[0])
+	}
+	if a.op == "vf_sub" && a.args[0].id > a.args[1].id {
+		// |x - y| = |y - x| exactly in IEEE arithmetic
+		return tt.mk("fp.abs", SFP, 0, tt.UF("vf_sub", SFP, 0, a.args[1], a.args[0]))
 	}
 	return tt.mk("fp.abs", SFP, 0, a)
 }
@@ -726,23 +753,22 @@ func (tt *TermTable) FMinMax(cfg FloatCfg, isMax bool, a, b *Term) *Term {
 		}
 		return tt.Ite(tt.FCmp(cfg, "<", b, a), b, a)
 	}
-	// FP: Go semantics
-	//   Max: +Inf if either +Inf; NaN if either NaN; Max(+0,-0)=+0; else larger
+	// FP: Go semantics (math.Max: +Inf wins over NaN, NaN otherwise propagates, Max(+0,-0)=+0)
+	//   ordered and different: the larger/smaller; equal (incl. +-0): by sign bit;
+	//   unordered (a NaN is involved): +-Inf if present, else NaN.
 	nan := tt.Float(math.NaN(), SFP)
-	anyNaN := tt.Or(tt.FIsNaN(cfg, a), tt.FIsNaN(cfg, b))
-	bothZero := tt.And(tt.mk("fp.isZero", SBool, 0, a), tt.mk("fp.isZero", SBool, 0, b))
 	if isMax {
 		inf := tt.Float(math.Inf(1), SFP)
 		anyInf := tt.Or(tt.FIsInf(cfg, a, 1), tt.FIsInf(cfg, b, 1))
-		zeroRes := tt.Ite(tt.mk("fp.isNegative", SBool, 0, a), b, a) // Signbit(x) ? y : x
-		gen := tt.Ite(tt.FCmp(cfg, ">", a, b), a, b)
-		return tt.Ite(anyInf, inf, tt.Ite(anyNaN, nan, tt.Ite(bothZero, zeroRes, gen)))
+		eqRes := tt.Ite(tt.mk("fp.isNegative", SBool, 0, a), b, a)
+		return tt.Ite(tt.FCmp(cfg, "<", b, a), a, tt.Ite(tt.FCmp(cfg, "<", a, b), b,
+			tt.Ite(tt.FCmp(cfg, "==", a, b), eqRes, tt.Ite(anyInf, inf, nan))))
 	}
 	inf := tt.Float(math.Inf(-1), SFP)
 	anyInf := tt.Or(tt.FIsInf(cfg, a, -1), tt.FIsInf(cfg, b, -1))
-	zeroRes := tt.Ite(tt.mk("fp.isNegative", SBool, 0, a), a, b) // Signbit(x) ? x : y
-	gen := tt.Ite(tt.FCmp(cfg, "<", a, b), a, b)
-	return tt.Ite(anyInf, inf, tt.Ite(anyNaN, nan, tt.Ite(bothZero, zeroRes, gen)))
+	eqRes := tt.Ite(tt.mk("fp.isNegative", SBool, 0, a), a, b)
+	return tt.Ite(tt.FCmp(cfg, "<", a, b), a, tt.Ite(tt.FCmp(cfg, "<", b, a), b,
+		tt.Ite(tt.FCmp(cfg, "==", a, b), eqRes, tt.Ite(anyInf, inf, nan))))
 }
 
 // FUnaryMath: sqrt floor ceil trunc round (exact in both domains where possible)
